@@ -154,7 +154,8 @@ def tlc(module, cfg=None, env=None, workers=1, timeout=600, extra=(), dfs=False,
     """Run TLC on spec/<module>.tla with spec/<cfg>. Returns TLCResult. Raises InfraError on timeout."""
     cwd = cwd or SPEC
     meta = mktmp("tlcmeta")
-    cmd = ["java", "-XX:+UseParallelGC", "-Xmx" + xmx]
+    # -Xss: recursive TLA+ operators over sequences need a deep Java stack (the default overflows nondeterministically)
+    cmd = ["java", "-XX:+UseParallelGC", "-Xmx" + xmx, "-Xss256m"]
     if dfs:
         cmd.append("-Dtlc2.tool.queue.IStateQueue=StateDeque")
     cmd += ["-cp", TLA_CP, "tlc2.TLC", "-metadir", meta, "-workers", str(workers), "-noGenerateSpecTE"]
